@@ -10,8 +10,8 @@
    directly inside an `if`/`except` does not displace an existing member). *)
 From Coq Require Import List ZArith String Bool Arith.
 From Verif Require Import Lib.Sexp Model.C01_base Gen.C01_tables Gen.C01_dispatch Model.C01_visitor Model.C01_content Model.C01_raw
-  Model.C01_layout Model.C01_dedent Model.C01_resolve Model.C01_ext Proofs.C01_visitor Proofs.C01_vis Proofs.C01_content Proofs.C01_raw
-  Proofs.C01_layout Proofs.C01_dedent Proofs.C01_resolve Proofs.C01_ext.
+  Model.C01_layout Model.C01_dedent Model.C01_resolve Model.C01_ext Model.C01_lines Proofs.C01_visitor Proofs.C01_vis Proofs.C01_content Proofs.C01_raw
+  Proofs.C01_layout Proofs.C01_dedent Proofs.C01_resolve Proofs.C01_ext Proofs.C01_lines.
 Import ListNotations.
 Open Scope string_scope. Open Scope list_scope. Open Scope nat_scope.
 
@@ -348,3 +348,15 @@ Theorem C01_history_announces_general : forall pre m b post c e,
     received e log = flat_map (fun ev => repeat ev (count_occ Nat.eq_dec (c ++ adds pre) e)) (visit_events m b).
 Proof. exact history_announces_general. Qed.
 Print Assumptions C01_history_announces_general.
+
+(* ---------------------------------------------------------------------------------------------------------------
+   The lines collection has a history (Model/C01_lines.v): loads with a loader of its own, the same loader again
+   (reload), or a new loader given the collection of the previous one, of files whose text changes in between.
+   Whatever the history before and after and whatever the collection held: right after a load, the collection holds for
+   the loaded path exactly the text that load has read, so Object.source of a span a..b is [object_source] of THAT text
+   (with C01_object_lines_source / C01_member_span_slices: the very definition). *)
+Theorem C01_lines_last_store_wins : forall pre s post lc,
+  nth_error (run_lines lc (pre ++ s :: post)) (List.length pre) = Some (Some (s_text s)) /\
+  forall a b, source_from (load_step (final_collection lc pre) s) (s_path s) a b = Some (object_source (s_text s) a b).
+Proof. exact lines_last_store_wins. Qed.
+Print Assumptions C01_lines_last_store_wins.
